@@ -124,8 +124,10 @@ def nightly_sysroot():
     return r.stdout.strip()
 
 
-def mir_facts(repo=None, features=""):
+def mir_facts(repo=None, features=None):
     repo = repo or REPO
+    if features is None:
+        features = os.environ.get("QV_FEATURES", "")
     ensure_tools()
     h = tree_hash(repo)
     d = os.path.join(CACHE, "facts", h)
